@@ -600,6 +600,26 @@ def gm_two_fit():
     return {'fam': 'GaussianMultivariate', 'na': 2, 'nb': 2, 'paths': len(paths), 'exhaustive': ex, 'fails': fails[:4], 'nfails': len(fails)}
 
 
+def concrete_wrapper_refit():
+    """the selecting Univariate wrapper: fit(A).fit(B) models B exactly like a fresh wrapper, for varying -> constant,
+    constant -> varying and varying -> varying histories"""
+    warnings.simplefilter('ignore')
+    rs = np.random.RandomState(8)
+    sets = {'gamma-like': rs.gamma(2.0, 2.0, 200) + 1.0, 'constant': np.full(30, 4.0), 'uniform-like': rs.uniform(-3, 2, 200),
+            'normal-like': rs.normal(10, 2, 200)}
+    for a_, b_ in (('gamma-like', 'constant'), ('constant', 'gamma-like'), ('gamma-like', 'uniform-like'), ('uniform-like', 'normal-like'),
+                   ('normal-like', 'constant')):
+        m = Univariate()
+        m.fit(sets[a_])
+        m.fit(sets[b_])
+        f = Univariate()
+        f.fit(sets[b_])
+        if repr(_round(m.to_dict())) != repr(_round(f.to_dict())):
+            return True, (f'Univariate(): after fit({a_} data) and fit({b_} data) to_dict() is {_round(m.to_dict())}, '
+                          f'a fresh wrapper fitted on the {b_} data gives {_round(f.to_dict())}')
+    return False, ''
+
+
 def concrete_multi_refit(which):
     warnings.simplefilter('ignore')
     rs = np.random.RandomState(3)
@@ -618,6 +638,13 @@ def concrete_multi_refit(which):
             a, b = m1.get_likelihood(u), m2.get_likelihood(u)
             if not (np.isclose(a, b) or (a != a and b != b)):
                 return True, f'VineCopula({t!r}): likelihood {a} after a refit vs {b} for a fresh fit'
+            # an earlier fit with another truncation level must not influence a later plain fit
+            m3 = VineCopula(t)
+            m3.fit(A, truncated=1)
+            m3.fit(B)
+            if len(m3.trees) != len(m2.trees) or m3.truncated != m2.truncated:
+                return True, (f'VineCopula({t!r}): fit(A, truncated=1) followed by fit(B) gives {len(m3.trees)} trees (truncated={m3.truncated}); '
+                              f'a fresh fit(B) gives {len(m2.trees)} (truncated={m2.truncated})')
         return False, ''
     from copulas.univariate import GaussianUnivariate as GU
     m1 = GaussianMultivariate(distribution=GU)
@@ -792,6 +819,10 @@ def stats_tau(X):
 
 
 def replay(d):
+    if d.get('kind') == 'wrapper_refit':
+        bad, detail = concrete_wrapper_refit()
+        print(detail)
+        return bad
     if d.get('kind') == 'biv_refit':
         bad, detail = concrete_biv_refit(d['fam'])
         print(detail)
@@ -900,6 +931,10 @@ def run(tier, seed):
         bad, detail = concrete_biv_refit(fam_)
         if bad:
             ck.violation(f'refit:bivariate {fam_}', detail, {'kind': 'biv_refit', 'fam': fam_})
+    n += 1
+    bad, detail = concrete_wrapper_refit()
+    if bad:
+        ck.violation('refit:Univariate wrapper', detail, {'kind': 'wrapper_refit'})
     for which in ('VineCopula', 'GaussianMultivariate'):
         n += 1
         bad, detail = concrete_multi_refit(which)
